@@ -590,6 +590,11 @@ def curves(ctx, r, n_hist):
             how = r.choice(["SetImage", "SetDomain", "image=", "domain=", "SetValues"])
             m = n if r.random() < 0.45 else r.randint(0, 4)
             new = arr(m, "m" if how in ("SetImage", "image=", "SetValues") else "s")
+            if r.random() < 0.08:
+                # an Array over a value that has no length (a 0-d ndarray): whatever the refusal is called, the curve stays as it was
+                import numpy as np
+
+                m, new = "unsized", Array(np.array(5.0), "m" if how in ("SetImage", "image=", "SetValues") else "s")
             hist.append((how, m))
             i0, d0 = c.GetImage(), c.GetDomain()
             ctx.ev()
@@ -625,7 +630,7 @@ def curves(ctx, r, n_hist):
                 ctx.count("curve refused")
                 if exc is None:
                     ctx.violation("Curve-mismatch-accepted:%s" % how, case, replay=case)
-                elif not isinstance(exc, ValueError):
+                elif not isinstance(exc, (ValueError, TypeError) if m == "unsized" else ValueError):
                     ctx.violation("Curve-refusal-not-ValueError:%s:%s" % (how, type(exc).__name__), dict(case, error=str(exc)[:200]), replay=case)
                 if c.GetImage() is not i0 or c.GetDomain() is not d0:
                     ctx.violation("Curve-refused-call-changed-it:%s" % how, case, replay=case)
